@@ -7,9 +7,12 @@ from optuna.study._multi_objective import _is_pareto_front
 
 def _compute_2d(sorted_pareto_sols: np.ndarray, reference_point: np.ndarray) -> float:
     assert sorted_pareto_sols.shape[1] == 2 and reference_point.shape[0] == 2
-    rect_diag_y = np.append(reference_point[1], sorted_pareto_sols[:-1, 1])
+    # The running minimum makes a dominated point (or a duplicate) contribute nothing, so that the
+    # result does not depend on whether the rows really are Pareto optimal.
+    y = np.minimum.accumulate(sorted_pareto_sols[:, 1])
+    rect_diag_y = np.append(reference_point[1], y[:-1])
     edge_length_x = reference_point[0] - sorted_pareto_sols[:, 0]
-    edge_length_y = rect_diag_y - sorted_pareto_sols[:, 1]
+    edge_length_y = rect_diag_y - y
     return edge_length_x @ edge_length_y
 
 
